@@ -43,6 +43,8 @@ CONSTANTS
   MaxForkRules,  \* rules in the fork tree
   MaxCommits,    \* branch commits
   MaxBaseAdv,    \* commits on the base branch after the fork
+  MaxMerge,      \* merges of the base branch into the branch (`git merge main`)
+  PairOps,       \* operation kinds that may be combined, two per commit ("MultiOp" in OpSet)
   OpSet,         \* enabled operation kinds
   ForkFdis,      \* BOOLEAN: fork files may carry a file/disable comment
   TombRename,    \* BOOLEAN: a file may be renamed onto a path deleted earlier on the branch (no verdict then, binding only)
@@ -60,12 +62,16 @@ Fresh  == "new"       \* identity of a file that has no version at the fork poin
 Rule == {r \in [kind : Kinds, name : Names, body : Bodies, lab : Labs, cmt : Cmts, pad : Pads, ext : Exts] :
            r.kind = "rec" => r.ext = "x0"}
 NewRules == {r \in Rule : r.cmt = "none" /\ r.pad = 0}
-AbsentFile == [present |-> FALSE, fdis |-> FALSE, rules |-> <<>>]
-EmptyFile  == [present |-> TRUE, fdis |-> FALSE, rules |-> <<>>]
+\* broken: the file ends in a line that is not YAML (`  - record: [`): strict parsing fails, the file has no rules
+AbsentFile == [present |-> FALSE, fdis |-> FALSE, broken |-> FALSE, rules |-> <<>>]
+EmptyFile  == [present |-> TRUE, fdis |-> FALSE, broken |-> FALSE, rules |-> <<>>]
 
 VARIABLES
   phase,     \* "fork" | "branch"
   fork,      \* [Paths -> File]  tree at the fork point
+  base,      \* [Paths -> File]  tree at the merge base of branch and base branch (= fork until the base branch is merged)
+  mainNew,   \* [Paths -> [top, end : Seq(Rule)]]  rules the base branch inserted since the merge base
+  nmerge,
   tree,      \* [Paths -> File]  working tree of the branch after the commits so far
   changes,   \* Impl: []*git.FileChange as folded so far
   origin,    \* Doc: [Paths -> path at the fork point whose file now lives here | Fresh | NoPath (no file)]
@@ -77,8 +83,8 @@ VARIABLES
   ncommit, nbase,
   log        \* GEN: the operations performed
 
-vars == <<phase, fork, tree, changes, origin, tomb, ambig, prevTree, lastNS, ncommit, nbase, log>>
-MCView == <<phase, fork, tree, changes, origin, tomb, ambig, prevTree, lastNS, ncommit, nbase>>
+vars == <<phase, fork, base, mainNew, nmerge, tree, changes, origin, tomb, ambig, prevTree, lastNS, ncommit, nbase, log>>
+MCView == <<phase, fork, base, mainNew, nmerge, tree, changes, origin, tomb, ambig, prevTree, lastNS, ncommit, nbase>>
 
 -----------------------------------------------------------------------------
 (* Helpers                                                                 *)
@@ -103,11 +109,19 @@ FirstLine(f, k) == (IF f.fdis THEN 1 ELSE 0) + 3 + LinesBefore(f.rules, k - 1) +
 LastLine(f, k)  == FirstLine(f, k) + RuleLen(f.rules[k]) - 1
 ExprLine(f, k)  == FirstLine(f, k) + 1
 
-\* discovery.readRules: one entry per rule, DisabledChecks from the file-level comments.
+\* line of the YAML error of a broken file: its last line
+ErrLine(f) == (IF f.fdis THEN 1 ELSE 0) + 3 + LinesBefore(f.rules, Len(f.rules)) + 1
+NoRule == [kind |-> "", name |-> "", body |-> "", lab |-> "", cmt |-> "", ext |-> ""]
+
+\* discovery.readRules: one entry per rule, DisabledChecks from the file-level comments; a file that does not parse
+\* yields a single entry carrying the PathError (no rule).
 EntriesOf(path, f) ==
-  [k \in 1..Len(f.rules) |->
-     [path |-> path, rule |-> Content(f.rules[k]), first |-> FirstLine(f, k), last |-> LastLine(f, k),
-      fdis |-> f.fdis, state |-> "noop"]]
+  IF f.broken
+  THEN <<[path |-> path, rule |-> NoRule, first |-> 0, last |-> 0, fdis |-> FALSE, state |-> "noop",
+          err |-> TRUE, eline |-> ErrLine(f)]>>
+  ELSE [k \in 1..Len(f.rules) |->
+         [path |-> path, rule |-> Content(f.rules[k]), first |-> FirstLine(f, k), last |-> LastLine(f, k),
+          fdis |-> f.fdis, state |-> "noop", err |-> FALSE, eline |-> 0]]
 
 -----------------------------------------------------------------------------
 (* Impl: git.Changes - fold of one name-status line                        *)
@@ -135,8 +149,8 @@ Identical(a, b) == a.rule = b.rule            \* Rule.IsIdentical
 EntryIdentical(b, a) == b.fdis = a.fdis       \* isEntryIdentical (DisabledChecks)
 SameName(a, b) == a.rule.kind = b.rule.kind /\ a.rule.name = b.rule.name
 
-NoEntry == [path |-> NoPath, rule |-> [kind |-> "", name |-> "", body |-> "", lab |-> "", cmt |-> "", ext |-> ""],
-            first |-> 0, last |-> 0, fdis |-> FALSE, state |-> "unknown"]
+NoEntry == [path |-> NoPath, rule |-> NoRule, first |-> 0, last |-> 0, fdis |-> FALSE, state |-> "unknown",
+            err |-> FALSE, eline |-> 0]
 MIdent(b, a) == [hasBefore |-> TRUE, hasAfter |-> TRUE, before |-> b, after |-> a,
                  isIdentical |-> EntryIdentical(b, a), wasMoved |-> a.path # b.path]
 MName(b, a)  == [hasBefore |-> TRUE, hasAfter |-> TRUE, before |-> b, after |-> a,
@@ -147,11 +161,11 @@ MRemoved(b)  == [hasBefore |-> TRUE, hasAfter |-> FALSE, before |-> b, after |->
                  isIdentical |-> FALSE, wasMoved |-> FALSE]
 Leftover(bs) == [k \in 1..Len(bs) |-> MRemoved(bs[k])]
 
-FirstIdentical(a, bs) ==
-  LET S == {k \in 1..Len(bs) : Identical(a, bs[k])} IN IF S = {} THEN 0 ELSE MinOf(S)
+FirstIdentical(a, bs) ==      \* a.Rule.Name() != "" && a.Rule.IsIdentical(b.Rule); an error entry has no rule
+  LET S == {k \in 1..Len(bs) : ~a.err /\ ~bs[k].err /\ Identical(a, bs[k])} IN IF S = {} THEN 0 ELSE MinOf(S)
 \* findRulesByName
-ByName(bs, a)    == SelectSeq(bs, LAMBDA b : SameName(a, b))
-NotByName(bs, a) == SelectSeq(bs, LAMBDA b : ~SameName(a, b))
+ByName(bs, a)    == SelectSeq(bs, LAMBDA b : ~b.err /\ SameName(a, b))       \* entry.PathError == nil && type && name
+NotByName(bs, a) == SelectSeq(bs, LAMBDA b : ~(~b.err /\ SameName(a, b)))
 
 \* as pinned: per HEAD entry, in order: an identical base entry if any is left, else the only one of that name
 RECURSIVE MatchGreedy(_, _)
@@ -198,11 +212,13 @@ StateOf(m) ==
     [] m.wasMoved -> "moved"
     [] OTHER -> "modified"
 
-\* entries one FileChange contributes (HEAD files always parse: failedEntries is empty)
+\* entries one FileChange contributes; when the HEAD version does not parse (failedEntries) base rules without a
+\* counterpart are dropped instead of being reported as removed
 ChangeEntries(ch, mode) ==
   LET before == IF ch.before = NoPath THEN <<>> ELSE EntriesOf(ch.before, ch.bfile)
       after  == IF ch.status = "D" THEN <<>> ELSE EntriesOf(ch.after, ch.afile)
-      ml     == MatchEntries(before, after, mode) IN
+      failed == \E k \in 1..Len(after) : after[k].err               \* entriesWithPathErrors(entriesAfter)
+      ml     == SelectSeq(MatchEntries(before, after, mode), LAMBDA m : m.hasAfter \/ ~failed) IN
   [k \in 1..Len(ml) |-> IF ml[k].hasAfter THEN [ml[k].after EXCEPT !.state = StateOf(ml[k])]
                         ELSE [ml[k].before EXCEPT !.state = "removed"]]
 
@@ -227,7 +243,12 @@ AllEntries(t, chs, mode) == Merge(GlobEntries(t), ChangedEntries(chs, mode), 1)
 \* what the marker configuration shows: rule/report runs on every non-removed entry, one marker per state
 MarkersOf(all) ==
   {[path |-> e.path, first |-> e.first, last |-> e.last, state |-> e.state] :
-     e \in {x \in RangeOf(all) : x.state # "removed"}}
+     e \in {x \in RangeOf(all) : x.state # "removed" /\ ~x.err}}
+\* config.GetChecksForEntry: an entry with a PathError only gets the error check, under the default CI states;
+\* checkRules skips removed entries with errors
+ParseReportsOf(all) ==
+  {[path |-> e.path, line |-> e.eline] : e \in {x \in RangeOf(all) : x.err /\ x.state \in {"added", "modified", "moved"}}}
+ImplParse(t, chs, mode) == ParseReportsOf(AllEntries(t, chs, mode))
 ImplMarkers(t, chs, mode) == MarkersOf(AllEntries(t, chs, mode))
 
 -----------------------------------------------------------------------------
@@ -260,10 +281,21 @@ RefAcceptOf(hf, bf, org, p, k) ==
 
 RefAccept(p, k) ==
   LET org == origin[p] IN
-  RefAcceptOf(tree[p], IF org = Fresh THEN AbsentFile ELSE fork[org], org, p, k)
+  RefAcceptOf(tree[p], IF org = Fresh THEN AbsentFile ELSE base[org], org, p, k)
 
-\* the rules `pint ci` lints at HEAD
-HeadRules == UNION {{<<p, k>> : k \in 1..Len(tree[p].rules)} : p \in Paths \ Excluded}
+\* the rules `pint ci` lints at HEAD (a file that does not parse has none)
+HeadRules == UNION {{<<p, k>> : k \in 1..Len(tree[p].rules)} : p \in {q \in Paths \ Excluded : ~tree[q].broken}}
+\* some linted HEAD file does not parse: which rules "remain at HEAD" is then undefined (C20: binding only)
+Unparsed == \E p \in Paths \ Excluded : tree[p].broken
+\* the pair of versions pint compares for p is not (merge-base version, HEAD version): Body.After is read at the last
+\* branch commit that touched the file, Body.Before at the parent of the first one - after `git merge <base>` neither
+\* need be the HEAD version / the merge-base version any more
+StaleAt(p) ==
+  \E i \in 1..Len(changes) :
+     /\ changes[i].after = p /\ changes[i].status # "D"
+     /\ \/ changes[i].afile # tree[p]
+        \/ changes[i].before \in Paths /\ changes[i].bfile # base[changes[i].before]
+Stale == \E p \in Paths : StaleAt(p)
 
 StatesAt(ms, p, k) == {m.state : m \in {x \in ms : x.path = p /\ x.first = FirstLine(tree[p], k)
                                                    /\ x.last = LastLine(tree[p], k)}}
@@ -273,7 +305,7 @@ RuleOK(ms, p, k) == LET S == StatesAt(ms, p, k) IN S # {} /\ S \subseteq RefAcce
 Sig(p, k, obs) ==
   LET org == origin[p]
       hf  == tree[p]
-      bf  == IF org = Fresh \/ org = NoPath THEN AbsentFile ELSE fork[org]
+      bf  == IF org = Fresh \/ org = NoPath THEN AbsentFile ELSE base[org]
       key == Key(hf.rules[k])
       bI  == SelectSeq([j \in 1..Len(bf.rules) |-> j], LAMBDA j : Key(bf.rules[j]) = key)
       hI  == SelectSeq([j \in 1..Len(hf.rules) |-> j], LAMBDA j : Key(hf.rules[j]) = key)
@@ -284,7 +316,7 @@ Sig(p, k, obs) ==
       head  |-> [j \in 1..Len(hI) |-> dense(cls(Full(hf, hI[j])))],
       rule  |-> MinOf({j \in 1..Len(hI) : hI[j] = k}),
       moved |-> org # p, fresh |-> org = Fresh,
-      acc   |-> RefAccept(p, k), obs |-> obs, path |-> p, k |-> k]
+      acc   |-> RefAccept(p, k), obs |-> obs, path |-> p, k |-> k, stale |-> StaleAt(p), merged |-> nmerge > 0]
 
 Inv_C03 ==
   (phase = "branch" /\ ~ambig) =>
@@ -303,6 +335,17 @@ Inv_C03_known ==
   (phase = "branch" /\ ~ambig) =>
     LET ms == ImplMarkers(tree, changes, MatchMode) IN
     \A pk \in HeadRules : RuleOK(ms, pk[1], pk[2]) \/ (MatchMode = "greedy" /\ KnownF5(pk[1], pk[2]))
+
+\* The open defect F23 (known_findings.json, C03): once the base branch has been merged into the branch, git.Changes
+\* still compares "parent of the first branch commit touching the file" with "last branch commit touching the file".
+\* Rules the base branch contributed are then reported as added by the branch, and when the merge shifted lines the
+\* changed entries carry pre-merge line numbers and are merged into the wrong glob entries (or into none).
+Inv_C03_modMerge ==
+  (phase = "branch" /\ ~ambig) =>
+    LET ms == ImplMarkers(tree, changes, MatchMode) IN
+    \A pk \in HeadRules : \/ RuleOK(ms, pk[1], pk[2])
+                          \/ nmerge > 0 /\ StaleAt(pk[1])
+                          \/ MatchMode = "greedy" /\ KnownF5(pk[1], pk[2])
 
 \* model-level leads: prints the signature of every rule whose predicted marker is not acceptable
 PrintLeads ==
@@ -349,7 +392,7 @@ SortDeps(ds) ==
 
 \* RuleDependencyCheck.Check for one removed entry e against the merged entry list
 DependencyProblem(e, all) ==
-  LET filtered == SelectSeq(all, LAMBDA x : x.state # "removed")        \* nonRemovedEntries
+  LET filtered == SelectSeq(all, LAMBDA x : x.state # "removed" /\ ~x.err)   \* nonRemovedEntries (also drops PathError entries)
       replaced == \E i \in 1..Len(filtered) : SameName(filtered[i], e)   \* another rule with same type & name
       users    == SelectSeq(filtered, LAMBDA x : UsesRule(x.rule, e.rule))
       deps     == [i \in 1..Len(users) |-> [name |-> users[i].rule.name, path |-> users[i].path, line |-> users[i].first + 1]]
@@ -363,7 +406,7 @@ DependencyProblem(e, all) ==
 \* rule/dependency problems of a run: one Check per removed entry (cmd/pint/scan.go checkRules)
 ImplDeps(t, chs, mode) ==
   LET all == AllEntries(t, chs, mode) IN
-  UNION {DependencyProblem(all[i], all) : i \in {j \in 1..Len(all) : all[j].state = "removed"}}
+  UNION {DependencyProblem(all[i], all) : i \in {j \in 1..Len(all) : all[j].state = "removed" /\ ~all[j].err}}
 
 \* Doc: a rule of the fork-point tree whose (kind, name) no HEAD rule carries has been removed without replacement;
 \* its dependants are the HEAD rules selecting its metric / its alertname.
@@ -372,24 +415,41 @@ DocDeps(r) ==
   IF \E h \in HeadContents : Key(h.c) = Key(r) THEN {}
   ELSE {[name |-> h.c.name, path |-> h.p, line |-> ExprLine(tree[h.p], h.k)] : h \in {x \in HeadContents : UsesRule(x.c, r)}}
 DocWarnings ==
+  UNION {UNION {IF DocDeps(Content(base[q].rules[j])) = {} THEN {}
+                ELSE {[path |-> q, first |-> FirstLine(base[q], j), last |-> LastLine(base[q], j),
+                       deps |-> DocDeps(Content(base[q].rules[j]))]}
+                : j \in 1..Len(base[q].rules)} : q \in Paths}
+
+\* The same warnings located by the line numbers of the fork-point version (a removed rule has no lines at HEAD; after a
+\* merge of the base branch "its lines" may mean the merge-base version or the version the branch started from).
+ForkOffset(q) ==
+  LET nb == Len(base[q].rules)
+      nf == Len(fork[q].rules) IN
+  IF nf = 0 \/ nb < nf THEN 0
+  ELSE LET S == {i \in 0..(nb - nf) : SubSeq(base[q].rules, i + 1, i + nf) = fork[q].rules} IN IF S = {} THEN 0 ELSE MinOf(S)
+DocWarningsForkLines ==
   UNION {UNION {IF DocDeps(Content(fork[q].rules[j])) = {} THEN {}
                 ELSE {[path |-> q, first |-> FirstLine(fork[q], j), last |-> LastLine(fork[q], j),
                        deps |-> DocDeps(Content(fork[q].rules[j]))]}
                 : j \in 1..Len(fork[q].rules)} : q \in Paths}
+DocWarningsOK(ws) == ws = DocWarnings \/ (nmerge > 0 /\ ws = DocWarningsForkLines)
 
 DepsAsSets(ws) == {[path |-> w.path, first |-> w.first, last |-> w.last, deps |-> RangeOf(w.deps)] : w \in ws}
 
-Inv_C20 == (phase = "branch" /\ ~ambig) => DepsAsSets(ImplDeps(tree, changes, MatchMode)) = DocWarnings
+Inv_C20 == (phase = "branch" /\ ~ambig /\ ~Unparsed /\ ~(nmerge > 0 /\ Stale)) => DocWarningsOK(DepsAsSets(ImplDeps(tree, changes, MatchMode)))
 
 -----------------------------------------------------------------------------
 (* Actions                                                                 *)
+NoNS == [status |-> "", src |-> NoPath, dst |-> NoPath]
+NoNew == [p \in Paths |-> [top |-> <<>>, end |-> <<>>]]
 Init ==
   /\ phase = "fork"
   /\ fork = [p \in Paths |-> AbsentFile] /\ tree = [p \in Paths |-> AbsentFile]
+  /\ base = [p \in Paths |-> AbsentFile] /\ mainNew = NoNew /\ nmerge = 0
   /\ changes = <<>>
   /\ origin = [p \in Paths |-> NoPath] /\ tomb = [p \in Paths |-> NoPath] /\ ambig = FALSE
   /\ prevTree = [p \in Paths |-> AbsentFile]
-  /\ lastNS = [status |-> "", src |-> NoPath, dst |-> NoPath]
+  /\ lastNS = NoNS
   /\ ncommit = 0 /\ nbase = 0 /\ log = <<>>
 
 RECURSIVE CountRules(_, _)
@@ -398,29 +458,33 @@ CountRules(t, i) == IF i = 0 THEN 0 ELSE Len(t[PathOrder[i]].rules) + CountRules
 ForkAppend(p, r) ==
   /\ phase = "fork"
   /\ Len(fork[p].rules) < MaxRules /\ CountRules(fork, Len(PathOrder)) < MaxForkRules
-  /\ fork' = [fork EXCEPT ![p] = [present |-> TRUE, fdis |-> @.fdis, rules |-> Append(@.rules, r)]]
-  /\ UNCHANGED <<phase, tree, changes, origin, tomb, ambig, prevTree, lastNS, ncommit, nbase, log>>
+  /\ fork' = [fork EXCEPT ![p] = [present |-> TRUE, fdis |-> @.fdis, broken |-> FALSE, rules |-> Append(@.rules, r)]]
+  /\ UNCHANGED <<phase, base, mainNew, nmerge, tree, changes, origin, tomb, ambig, prevTree, lastNS, ncommit, nbase, log>>
 
 ForkEmptyFile(p) ==
   /\ phase = "fork" /\ ~fork[p].present
   /\ fork' = [fork EXCEPT ![p] = EmptyFile]
-  /\ UNCHANGED <<phase, tree, changes, origin, tomb, ambig, prevTree, lastNS, ncommit, nbase, log>>
+  /\ UNCHANGED <<phase, base, mainNew, nmerge, tree, changes, origin, tomb, ambig, prevTree, lastNS, ncommit, nbase, log>>
 
 ForkFileDisable(p) ==
   /\ phase = "fork" /\ ForkFdis /\ fork[p].present /\ ~fork[p].fdis
   /\ fork' = [fork EXCEPT ![p].fdis = TRUE]
-  /\ UNCHANGED <<phase, tree, changes, origin, tomb, ambig, prevTree, lastNS, ncommit, nbase, log>>
+  /\ UNCHANGED <<phase, base, mainNew, nmerge, tree, changes, origin, tomb, ambig, prevTree, lastNS, ncommit, nbase, log>>
 
 StartBranch ==
   /\ phase = "fork" /\ \E p \in Paths : fork[p].present
-  /\ phase' = "branch" /\ tree' = fork /\ prevTree' = fork
+  /\ phase' = "branch" /\ tree' = fork /\ prevTree' = fork /\ base' = fork
   /\ origin' = [p \in Paths |-> IF fork[p].present THEN p ELSE NoPath]
-  /\ UNCHANGED <<fork, changes, tomb, ambig, lastNS, ncommit, nbase, log>>
+  /\ UNCHANGED <<fork, mainNew, nmerge, changes, tomb, ambig, lastNS, ncommit, nbase, log>>
 
-Mk(op, st, src, dst, f) == [op |-> op, ns |-> [status |-> st, src |-> src, dst |-> dst], file |-> f]
+\* A commit = one or two file-level parts, each a name-status line and the new content of its destination.
+Mk(op, st, src, dst, f) == [op |-> op, ns |-> [status |-> st, src |-> src, dst |-> dst], file |-> f, more |-> <<>>]
+Parts(o) == <<[ns |-> o.ns, file |-> o.file]>> \o o.more
 WithRules(f, rs) == [f EXCEPT !.rules = rs]
 Present == {p \in Paths : tree[p].present}
+Editable == {p \in Present : ~tree[p].broken}
 Has(op) == op \in OpSet
+PathIdx(p) == MinOf({i \in 1..Len(PathOrder) : PathOrder[i] = p})
 
 \* one-field variants of a rule, by the user-level operation that makes them
 ExprVariants(r)  == {[r EXCEPT !.body = b] : b \in Bodies \ {r.body}}
@@ -437,7 +501,7 @@ SpaceVariants(r) == IF 1 \notin Pads THEN {} ELSE IF r.pad = 1 THEN {[r EXCEPT !
 RuleEdits(op, V(_)) ==
   IF ~Has(op) THEN {} ELSE
   UNION {UNION {{Mk(op, "M", p, p, WithRules(tree[p], [tree[p].rules EXCEPT ![k] = r2])) : r2 \in V(tree[p].rules[k])}
-                : k \in 1..Len(tree[p].rules)} : p \in Present}
+                : k \in 1..Len(tree[p].rules)} : p \in Editable}
 
 InverseOfLast ==
   CASE lastNS.status = "A" -> {Mk("RevertLast", "D", lastNS.dst, lastNS.dst, AbsentFile)}
@@ -450,84 +514,153 @@ InverseOfLast ==
 NewFiles(p) == {WithRules(EmptyFile, <<r>>) : r \in NewRules} \cup {EmptyFile}
                \cup (IF fork[p].present THEN {fork[p]} ELSE {})
 
-Candidates ==
+Singles ==
      RuleEdits("ModifyExpr", ExprVariants) \cup RuleEdits("ModifyLabels", LabelVariants)
   \cup RuleEdits("RenameRule", NameVariants) \cup RuleEdits("ChangeKind", KindVariants)
   \cup RuleEdits("CommentOnlyEdit", CmtVariants) \cup RuleEdits("PlainCommentEdit", NoteVariants)
   \cup RuleEdits("WhitespaceEdit", SpaceVariants) \cup RuleEdits("ModifyAlertFields", ExtVariants)
   \cup (IF ~Has("AddRule") THEN {} ELSE
         UNION {UNION {{Mk("AddRule", "M", p, p, WithRules(tree[p], InsertAt(tree[p].rules, k, r))) : r \in NewRules}
-                      : k \in 1..(Len(tree[p].rules) + 1)} : p \in {q \in Present : Len(tree[q].rules) < MaxRules}})
+                      : k \in 1..(Len(tree[p].rules) + 1)} : p \in {q \in Editable : Len(tree[q].rules) < MaxRules}})
   \cup (IF ~Has("DeleteRule") THEN {} ELSE
         UNION {{Mk("DeleteRule", "M", p, p, WithRules(tree[p], RemoveAt(tree[p].rules, k))) : k \in 1..Len(tree[p].rules)}
-               : p \in Present})
+               : p \in Editable})
   \cup (IF ~Has("SwapRules") THEN {} ELSE
         UNION {{Mk("SwapRules", "M", p, p, WithRules(tree[p], [tree[p].rules EXCEPT ![k] = tree[p].rules[k + 1],
                                                                                     ![k + 1] = tree[p].rules[k]]))
-                : k \in {j \in 1..(Len(tree[p].rules) - 1) : tree[p].rules[j] # tree[p].rules[j + 1]}} : p \in Present})
+                : k \in {j \in 1..(Len(tree[p].rules) - 1) : tree[p].rules[j] # tree[p].rules[j + 1]}} : p \in Editable})
   \cup (IF ~Has("FileDisableEdit") THEN {} ELSE
-        {Mk("FileDisableEdit", "M", p, p, [tree[p] EXCEPT !.fdis = ~@]) : p \in Present})
+        {Mk("FileDisableEdit", "M", p, p, [tree[p] EXCEPT !.fdis = ~@]) : p \in Editable})
+  \* a commit leaves the file unparsable / repairs it
+  \cup (IF ~Has("BreakFile") THEN {} ELSE
+        {Mk("BreakFile", "M", p, p, [tree[p] EXCEPT !.broken = TRUE]) : p \in Editable \ Excluded})
+  \cup (IF ~Has("BreakFile") THEN {} ELSE
+        {Mk("FixFile", "M", p, p, [tree[p] EXCEPT !.broken = FALSE]) : p \in Present \ Editable})
   \cup (IF ~Has("AddFile") THEN {} ELSE
         UNION {{Mk("AddFile", "A", p, p, f) : f \in NewFiles(p)} : p \in (Paths \ Present) \ Excluded})
   \cup (IF ~Has("DeleteFile") THEN {} ELSE {Mk("DeleteFile", "D", p, p, AbsentFile) : p \in Present})
   \cup (IF ~Has("RenameFile") THEN {} ELSE
         UNION {{Mk("RenameFile", "R", p, q, tree[p]) : q \in {x \in (Paths \ Present) \ Excluded : tomb[x] = NoPath \/ TombRename}}
                : p \in Present})
-  \cup (IF ~Has("RevertLast") \/ ncommit = 0 THEN {} ELSE InverseOfLast)
 
-\* the commit is one well-formed file-level operation on the current tree
-ValidNS(t, o) ==
-  CASE o.ns.status = "A" -> o.ns.src = o.ns.dst /\ ~t[o.ns.dst].present /\ o.file.present
-                            /\ o.ns.dst \notin Excluded             \* files are not created outside the linted set
-    [] o.ns.status = "M" -> o.ns.src = o.ns.dst /\ t[o.ns.dst].present /\ o.file.present /\ o.file # t[o.ns.dst]
-    [] o.ns.status = "D" -> o.ns.src = o.ns.dst /\ t[o.ns.src].present
-    [] o.ns.status = "R" -> o.ns.src # o.ns.dst /\ t[o.ns.src].present /\ ~t[o.ns.dst].present
-                            /\ o.file = t[o.ns.src]                 \* pure move: git reports R100
-                            /\ (tomb[o.ns.dst] = NoPath \/ TombRename) \* onto a path deleted on this branch: ambig
-                            /\ o.ns.dst \notin Excluded             \* nor out of the linted set
+\* one part is a well-formed file-level operation on the tree t before the commit (tb: tombstones before the commit)
+ValidPart(t, tb, x) ==
+  CASE x.ns.status = "A" -> x.ns.src = x.ns.dst /\ ~t[x.ns.dst].present /\ x.file.present
+                            /\ x.ns.dst \notin Excluded             \* files are not created outside the linted set
+    [] x.ns.status = "M" -> x.ns.src = x.ns.dst /\ t[x.ns.dst].present /\ x.file.present /\ x.file # t[x.ns.dst]
+    [] x.ns.status = "D" -> x.ns.src = x.ns.dst /\ t[x.ns.src].present
+    [] x.ns.status = "R" -> x.ns.src # x.ns.dst /\ t[x.ns.src].present /\ ~t[x.ns.dst].present
+                            /\ x.file = t[x.ns.src]                 \* pure move: git reports R100
+                            /\ (tb[x.ns.dst] = NoPath \/ TombRename) \* onto a path deleted on this branch: ambig
+                            /\ x.ns.dst \notin Excluded             \* nor out of the linted set
     [] OTHER -> FALSE
 
-ApplyNS(t, o) ==
-  CASE o.ns.status \in {"A", "M"} -> [t EXCEPT ![o.ns.dst] = o.file]
-    [] o.ns.status = "D" -> [t EXCEPT ![o.ns.src] = AbsentFile]
-    [] o.ns.status = "R" -> [t EXCEPT ![o.ns.src] = AbsentFile, ![o.ns.dst] = o.file]
+\* Several parts in one commit. git prints the lines ordered by destination path. git's similarity heuristic must never
+\* decide anything: all paths distinct; at most one (pure) rename and then nothing added and nothing deleted that has the
+\* renamed content; an added and a deleted file of one commit are dissimilar by construction (one has rules, the other
+\* has none, no file/disable line, both parse).
+ValidParts(t, tb, ps) ==
+  LET n == Len(ps)
+      touched(x) == IF x.ns.status = "R" THEN {x.ns.src, x.ns.dst} ELSE {x.ns.dst}
+      st(i) == ps[i].ns.status IN
+  /\ \A i \in 1..n : ValidPart(t, tb, ps[i])
+  /\ \A i, j \in 1..n : i < j => touched(ps[i]) \cap touched(ps[j]) = {} /\ PathIdx(ps[i].ns.dst) < PathIdx(ps[j].ns.dst)
+  /\ Cardinality({i \in 1..n : st(i) = "R"}) <= 1
+  /\ \A i, j \in 1..n :
+        /\ (st(i) = "R" /\ st(j) = "A") => FALSE
+        /\ (st(i) = "R" /\ st(j) = "D") => t[ps[j].ns.src] # t[ps[i].ns.src]
+        /\ (st(i) = "A" /\ st(j) = "D") =>
+             LET a == ps[i].file
+                 d == t[ps[j].ns.src] IN
+             ~a.fdis /\ ~d.fdis /\ ~a.broken /\ ~d.broken /\ ((Len(a.rules) = 0) # (Len(d.rules) = 0))
+
+Pairs ==
+  IF ~Has("MultiOp") THEN {} ELSE
+  LET S == {x \in Singles : x.op \in PairOps} IN
+  {[op |-> ab[1].op \o "+" \o ab[2].op, ns |-> ab[1].ns, file |-> ab[1].file,
+    more |-> <<[ns |-> ab[2].ns, file |-> ab[2].file]>>] :
+     ab \in {xy \in S \X S : ValidParts(tree, tomb, <<[ns |-> xy[1].ns, file |-> xy[1].file],
+                                                      [ns |-> xy[2].ns, file |-> xy[2].file]>>)}}
+
+Candidates == Singles \cup Pairs \cup (IF ~Has("RevertLast") \/ ncommit = 0 THEN {} ELSE InverseOfLast)
+
+RECURSIVE ApplyParts(_, _, _)
+ApplyParts(t, ps, k) ==
+  IF k > Len(ps) THEN t
+  ELSE LET x == ps[k] IN
+       ApplyParts(CASE x.ns.status \in {"A", "M"} -> [t EXCEPT ![x.ns.dst] = x.file]
+                    [] x.ns.status = "D" -> [t EXCEPT ![x.ns.src] = AbsentFile]
+                    [] x.ns.status = "R" -> [t EXCEPT ![x.ns.src] = AbsentFile, ![x.ns.dst] = x.file], ps, k + 1)
+RECURSIVE FoldParts(_, _, _, _, _, _)
+FoldParts(chs, ps, k, c, t, t2) ==
+  IF k > Len(ps) THEN chs ELSE FoldParts(Fold(chs, ps[k].ns, c, t, t2), ps, k + 1, c, t, t2)
 
 \* Doc: file identities. A deleted file leaves its identity at the path; adding a file there again continues it.
-OriginAfter(o) ==
-  CASE o.ns.status = "A" -> [origin EXCEPT ![o.ns.dst] = IF tomb[o.ns.dst] # NoPath THEN tomb[o.ns.dst] ELSE Fresh]
-    [] o.ns.status = "D" -> [origin EXCEPT ![o.ns.src] = NoPath]
-    [] o.ns.status = "R" -> [origin EXCEPT ![o.ns.dst] = origin[o.ns.src], ![o.ns.src] = NoPath]
-    [] OTHER -> origin
-TombAfter(o) ==
-  CASE o.ns.status = "A" -> [tomb EXCEPT ![o.ns.dst] = NoPath]
-    [] o.ns.status = "D" -> [tomb EXCEPT ![o.ns.src] = origin[o.ns.src]]
-    [] o.ns.status = "R" -> [tomb EXCEPT ![o.ns.dst] = NoPath]
-    [] OTHER -> tomb
+LinStep(st, ns) ==
+  CASE ns.status = "A" -> [origin |-> [st.origin EXCEPT ![ns.dst] = IF st.tomb[ns.dst] # NoPath THEN st.tomb[ns.dst] ELSE Fresh],
+                           tomb   |-> [st.tomb EXCEPT ![ns.dst] = NoPath], ambig |-> st.ambig]
+    [] ns.status = "D" -> [origin |-> [st.origin EXCEPT ![ns.src] = NoPath],
+                           tomb   |-> [st.tomb EXCEPT ![ns.src] = st.origin[ns.src]], ambig |-> st.ambig]
+    [] ns.status = "R" -> [origin |-> [st.origin EXCEPT ![ns.dst] = st.origin[ns.src], ![ns.src] = NoPath],
+                           tomb   |-> [st.tomb EXCEPT ![ns.dst] = NoPath],
+                           ambig  |-> st.ambig \/ st.tomb[ns.dst] # NoPath]
+    [] OTHER -> st
+RECURSIVE LinParts(_, _, _)
+LinParts(st, ps, k) == IF k > Len(ps) THEN st ELSE LinParts(LinStep(st, ps[k].ns), ps, k + 1)
 
 Commit(o) ==
   /\ phase = "branch" /\ ncommit < MaxCommits
-  /\ ValidNS(tree, o)
-  /\ LET t2 == ApplyNS(tree, o) IN
+  /\ ValidParts(tree, tomb, Parts(o))
+  /\ LET ps == Parts(o)
+         t2 == ApplyParts(tree, ps, 1)
+         ln == LinParts([origin |-> origin, tomb |-> tomb, ambig |-> ambig], ps, 1) IN
      /\ tree' = t2
-     /\ changes' = Fold(changes, o.ns, ncommit + 1, tree, t2)
-  /\ origin' = OriginAfter(o) /\ tomb' = TombAfter(o)
-  /\ ambig' = (ambig \/ (o.ns.status = "R" /\ tomb[o.ns.dst] # NoPath))
-  /\ prevTree' = tree /\ lastNS' = o.ns
+     /\ changes' = FoldParts(changes, ps, 1, ncommit + 1, tree, t2)
+     /\ origin' = ln.origin /\ tomb' = ln.tomb /\ ambig' = ln.ambig
+     /\ lastNS' = IF Len(ps) = 1 THEN o.ns ELSE NoNS
+  /\ prevTree' = tree
   /\ ncommit' = ncommit + 1
   /\ log' = Append(log, o)
-  /\ UNCHANGED <<phase, fork, nbase>>
+  /\ UNCHANGED <<phase, fork, base, mainNew, nmerge, nbase>>
 
-\* a commit on the base branch after the fork: invisible to `git log base..HEAD` and to the fork-point versions
-BaseAdvance(p) ==
+\* A commit on the base branch after the fork inserts one rule at the top or at the end of a file. It is invisible to
+\* `git log base..HEAD` and to the merge base until the base branch is merged into the branch.
+MainFile(b, mn, p) == [b[p] EXCEPT !.rules = mn[p].top \o @ \o mn[p].end]
+ZZ(n) == [kind |-> "rec", name |-> "zz" \o ToString(n), body |-> "v1", lab |-> "l1", cmt |-> "none", pad |-> 0, ext |-> "x0"]
+BaseAdvance(p, where) ==
   /\ phase = "branch" /\ Has("BaseAdvance") /\ nbase < MaxBaseAdv
+  /\ p \notin Excluded /\ base[p].present
+  /\ LET mn == IF where = "top" THEN [mainNew EXCEPT ![p].top = <<ZZ(nbase + 1)>> \o @]
+               ELSE [mainNew EXCEPT ![p].end = @ \o <<ZZ(nbase + 1)>>] IN
+     /\ mainNew' = mn
+     /\ log' = Append(log, [Mk("BaseAdvance", "B", p, p, MainFile(base, mn, p)) EXCEPT !.op = "BaseAdvance" \o where])
   /\ nbase' = nbase + 1
-  /\ log' = Append(log, Mk("BaseAdvance", "B", p, p, AbsentFile))
-  /\ UNCHANGED <<phase, fork, tree, changes, origin, tomb, ambig, prevTree, lastNS, ncommit>>
+  /\ UNCHANGED <<phase, fork, base, nmerge, tree, changes, origin, tomb, ambig, prevTree, lastNS, ncommit>>
+
+\* `git merge <base branch>` on the branch. The merged content (also the resolution of conflicts) is: the branch's
+\* version of every file plus the rules the base branch inserted into the file it descends from; insertions into files
+\* the branch deleted or left unparsable are dropped. The merge commit is not listed by
+\* `git log --no-merges --first-parent base..HEAD`; the merge base becomes the tip of the base branch.
+MergedTree ==
+  [q \in Paths |->
+     IF tree[q].present /\ ~tree[q].broken /\ origin[q] \in Paths
+     THEN [tree[q] EXCEPT !.rules = mainNew[origin[q]].top \o @ \o mainNew[origin[q]].end]
+     ELSE tree[q]]
+MergeBase ==
+  /\ phase = "branch" /\ Has("MergeBase") /\ nmerge < MaxMerge /\ mainNew # NoNew
+  /\ tree' = MergedTree /\ prevTree' = MergedTree /\ lastNS' = NoNS
+  /\ base' = [p \in Paths |-> MainFile(base, mainNew, p)]
+  /\ mainNew' = NoNew /\ nmerge' = nmerge + 1
+  /\ log' = Append(log, [op |-> "MergeBase", ns |-> [status |-> "G", src |-> NoPath, dst |-> NoPath], file |-> AbsentFile,
+                         more |-> <<>>, tree |-> MergedTree])
+  /\ UNCHANGED <<phase, fork, changes, origin, tomb, ambig, ncommit, nbase>>
 
 Next ==
   \/ \E p \in Paths : \/ \E r \in NewRules : ForkAppend(p, r)
-                      \/ ForkEmptyFile(p) \/ ForkFileDisable(p) \/ BaseAdvance(p)
+                      \/ ForkEmptyFile(p) \/ ForkFileDisable(p)
+                      \/ \E w \in {"top", "end"} : BaseAdvance(p, w)
   \/ StartBranch
+  \/ MergeBase
   \/ \E o \in Candidates : Commit(o)
 
 Spec == Init /\ [][Next]_vars
@@ -538,7 +671,7 @@ Hint ==
    dup   |-> \E pk \in HeadRules : Cardinality({j \in 1..Len(tree[pk[1]].rules) :
                                        Key(tree[pk[1]].rules[j]) = Key(tree[pk[1]].rules[pk[2]])}) >= 2,
    moved |-> \E p \in Paths : tree[p].present /\ origin[p] # p,
-   ambig |-> ambig,
+   ambig |-> ambig, stale |-> Stale, unparsed |-> Unparsed, merged |-> nmerge > 0,
    acc   |-> UNION {RefAccept(pk[1], pk[2]) : pk \in HeadRules}]
 EmitCase ==
   (phase = "branch" /\ ncommit + nbase >= 1) =>
